@@ -227,7 +227,7 @@ func runCheck(id, tier, repoDir, verifDir string, debug, claim, keep bool) int {
 	} else {
 		fmt.Println("smt files in", scratch)
 	}
-	cfg := &solveCfg{dir: scratch, timeoutS: 10, seed: seed, workers: 16}
+	cfg := &solveCfg{dir: scratch, timeoutS: 20, seed: seed, workers: 16}
 	if tier == "thorough" {
 		cfg.timeoutS = 60
 		cfg.allSolv = true
